@@ -566,6 +566,11 @@ class Engine:
 
         else:
             self.state = store
+            # processes marked parallel get their workers, as through
+            # the other entry points
+            for _, node in self.state.depth():
+                if isinstance(node.value, Process):
+                    node.value = self._parallelize_processes(node.value)
             self.state.set_value(self.initial_state)
             # children of glob ports that the initial state names are
             # created here: complete them with the declared defaults
